@@ -15,7 +15,7 @@ from ..monitors import SiftProbe, FastClock, thread_probe
 from ..refmodels import count_extrema
 
 MANIFEST = {
-    'text': 'Held on every sift executed: the real emd.sift.sift is run on thousands of seeded signals (7 families, lengths 3-300) x stop rule x step x interpolation x pad width with a post-condition monitor (columns sum to the input within 64*eps*(k+1)*scale; last column non-oscillatory) and a probe that classifies the exit path of every inner extraction; a feedback corpus enriches the rare path where extrema vanish mid-extraction, and the run is inconclusive unless that path was seen often enough. Sampling, not proof.',
+    'text': 'Held on every sift executed: the real emd.sift.sift is run on thousands of seeded signals (7 families, lengths 3-300) x stop rule x step x interpolation x pad width with a post-condition monitor (columns sum to the input within 64*eps*(k+1)*scale; last column non-oscillatory) and a probe that classifies the exit path of every inner extraction; a feedback corpus enriches the rare path where extrema vanish mid-extraction, and the run is inconclusive unless that path was seen often enough. Sampling, not proof. Schedules: the same deterministic calls made from 4-5 threads of one interpreter at once (thread switch every 1-10 microseconds) must reproduce the results obtained alone. Returned decompositions are held untouched and re-read after later calls. A quarter of the shards run in a session that turns Deprecation/Future/UserWarnings into errors.',
     'note': 'Trusted: numpy/scipy, the harness extrema counter. sift_thresh default; PCHIP cases capped at 150 samples for cost.',
     'technique': 'runtime post-condition monitor on the real sift + exit-path probe, seeded workload with feedback corpus',
 }
